@@ -124,6 +124,12 @@ CHECKS = {
         note="Trusted base: ast.literal_eval of scripts/generate_tags.py in the tree under test, snapshot S.",
         ref="2/C19",
     ),
+    "C20": dict(
+        technique="property-based invariant + round-trip: Hypothesis component trees (components, tags, strings, jsx() expressions, dependencies, tagifiables as children and as prop values; children added by constructor/list/append/extend) converted 1-3 times; purity by structural snapshot, dependency multiset against the model, the generated React.createElement expression re-read by a harness JavaScript-subset reader and compared with the component model; allow-list clause",
+        text="Seeded generated-input search with a before/after snapshot invariant and a reader-based round-trip oracle. Found and fixed JSXTag.tagify() mutating its receiver (known_findings.json). Exploration.",
+        note="Trusted base: snapshot S, JavaScript reader J (reads the emitted subset, does not execute it), the component model in the harness; strings free of backslashes and line breaks.",
+        ref="2/C20",
+    ),
 }
 
 PENDING_REASON = "check not built yet in this revision (work in progress; see DESIGN.md section 2 for the planned generator and oracle)"
